@@ -1,10 +1,11 @@
 SPECIFICATION MCSpec
 CONSTANTS
   U = 4
-  MaxOps = 7
+  MaxOps = 6
   FailCs = {1, 2}
   FailNs = {2}
   PruneTs = {150}
+  RgsSnaps = {}
   WithReload = FALSE
 CONSTRAINT Bound
 VIEW View
